@@ -45,6 +45,7 @@ def verify(seed, wt):
 
 
 def detect(seed, pids=None):
+    seed = os.path.abspath(seed)
     meta = json.load(open(os.path.join(seed, "meta.json")))
     pid = meta["property"]
     d = tempfile.mkdtemp(prefix="verif-seed-", dir=SCRATCH)
